@@ -31,7 +31,10 @@ short PHYLIP / FASTA strings.  Also nesting depth 3000 (recursion clause).
 
 At most CAP new violations per monitor (CAP_KIND per monitor and edit kind, in the fixed
 enumeration order) are written out; the rest are counted in a note (the verdict is
-unaffected)."""
+unaffected).  If more than 60 (quick) / 400 (thorough) inputs hang or crash, the remaining
+inputs are not run, the cut is recorded in a note and the scopes lose their `exhaustive`
+flag for that run (a defect that hangs on a large share of the inputs would otherwise
+cost the CPU guard once per input)."""
 import io
 import itertools
 import re
@@ -339,10 +342,18 @@ def t2(ctx):
     items.append(dict(schema="nexus", text="#NEXUS\n" + "[c]\n" * 3000 + "BEGIN TREES;\nTREE t = (A,B);\nEND;\n", route="TreeList", kw={}, doc="deep:nexus",
                       mut="comments=3000", kind="deep", scope=sc_deep))
 
-    results = H.guarded_map(read_one, items, cpu_limit=cpu)
+    # the recursion / long-input probes first: they are few and must not be cut by the hang budget
+    items.sort(key=lambda it: 0 if it["kind"] in ("deep", "valid") else 1)
+    max_hangs = 60 if quick else 400
+    results = H.guarded_map(read_one, items, cpu_limit=cpu, max_hangs=max_hangs)
     reported, capped = {}, {}
     tally = {}
+    n_skipped = 0
     for it, (status, val) in zip(items, results):
+        if status == "skipped":
+            n_skipped += 1
+            ctx.scopes[it["scope"]]["exhaustive"] = False
+            continue
         key = "%s|%s|%s" % (it["doc"], it["mut"], it["route"])
         ctx.case(it["scope"], key, nontrivial=(it["kind"] != "str" or it["text"] != "") and (it["kind"] != "trunc" or it["text"] != ""),
                  sample=key)
@@ -370,6 +381,9 @@ def t2(ctx):
         if ctx.fail(mon, w, detail="%s via %s.get on %s [%s]: %s" % (it["schema"], it["route"], it["doc"], it["mut"], detail)):
             reported[g] = reported.get(g, 0) + 1
             reported[mon] = reported.get(mon, 0) + 1
+    if n_skipped:
+        ctx.note("%d of %d inputs were NOT evaluated: the run was cut after %d inputs hung or crashed (each costs %.2fs CPU); the scopes "
+                 "touched are marked non-exhaustive for this run" % (n_skipped, len(items), max_hangs, cpu))
     ctx.note("outcomes: " + ", ".join("%s=%d" % kv for kv in sorted(tally.items())))
     for g, n in sorted(capped.items()):
         ctx.note("%d further violations of %s not listed (cap: %d per monitor, %d per monitor and edit kind)" % (n, g, CAP, CAP_KIND))
